@@ -67,6 +67,9 @@ pub fn execute(
         ExecuteMsg::Receive(msg) => execute_receive(deps, env, info, msg),
         ExecuteMsg::Transfer(msg) => {
             let coin = one_coin(&info)?;
+            if coin.denom.starts_with("cw20:") {
+                return Err(ContractError::InvalidNativeDenom { denom: coin.denom });
+            }
             execute_transfer(deps, env, msg, Amount::Native(coin), info.sender)
         }
         ExecuteMsg::Allow(allow) => execute_allow(deps, env, info, allow),
